@@ -82,7 +82,7 @@ CHECKS["C04"] = {
     "test": "TestC04",
     "quick": {"shards": 8, "checks": 40000},
     "thorough": {"shards": 16, "checks": 200000, "fuzz": {"target": "FuzzC04", "seconds": 240}},
-    "rule": "a small real forest (0..6 generated blocks) gives the state for Pollard.Verify, MapPollard.Verify and VerifyPartialProof (generated TotalRows, "
+    "rule": "state modes: real / embedded / synthetic (below) and DEEP: one tree of 2^k leaves, k in {1,2,5,8,16,31,32,33,40,47,62,63}, of which only leaf 0, its path and the path's siblings are known (true claims exist for a node on every row), judged through Verify, Stump.Update (atomicity incl. at 2^63 leaves) and a map forest started from the bare root (Verify, VerifyPartialProof, remember on/off). Otherwise a small real forest (0..6 generated blocks) gives the state for Pollard.Verify, MapPollard.Verify and VerifyPartialProof (generated TotalRows, "
             "full/partial, remember on/off); Verify and Stump.Update get that stump, or the same forest embedded at the low end of a stump with up to 2^62+.. "
             "leaves (fresh roots for the high trees), or a synthetic stump (NumLeaves from boundary constants / random 64-bit values <= 2^63, roots from "
             "{true node hashes, leaves, fresh, zero}). The claim is an honest proof put through 1-3 structured mutations (duplicate / retarget / swap / re-hash / "
@@ -107,7 +107,7 @@ CHECKS["C03"] = {
     "test": "TestC03",
     "quick": {"shards": 8, "checks": 6000},
     "thorough": {"shards": 16, "checks": 60000, "fuzz": {"target": "FuzzC03", "seconds": 240}},
-    "rule": "two parts. Enumerated (complete per state, states dealt over shards): for every forest with N<=4 leaves and ANY dead set, and selected N in 5..6 "
+    "rule": "two parts (plus, in 1 of 8 generated cases, the DEEP state of C04: one tree of 2^k leaves up to k=63 with leaf 0's path known, claims judged through Verify and a map forest started from the root). Enumerated (complete per state, states dealt over shards): for every forest with N<=4 leaves and ANY dead set, and selected N in 5..6 "
             "(thorough ..8): every tuple of k<=2 (thorough 3 for N<=4) targets in [0,maxPos], hashes and 0..3 proof hashes (fewer where the per-state cap "
             "of 1.5M/12M tuples would be passed) from {every true node hash, one fresh value}, given to Verify and Pollard.Verify. Generated (rapid): states of "
             "up to 48 (thorough 300) leaves; an honest proof put through 1-3 structured mutations or a free tuple, given to Verify, Pollard.Verify, "
@@ -376,9 +376,9 @@ NOT_APPLICABLE[:] = [e for e in NOT_APPLICABLE if e["property_id"] not in CHECKS
 CHECKS["C12"] = {
     "test": "TestC12",
     "race": True,
-    "quick": {"shards": 8, "checks": 300, "timeout": 1500},
+    "quick": {"shards": 8, "checks": 200, "timeout": 1500},
     "thorough": {"shards": 16, "checks": 6000, "timeout": 7200},
-    "rule": "built with -race (GORACE halt_on_error). A rapid-generated writer script (block / undo / Verify(remember) / re-read of its own serialization; for a partial forest also "
+    "rule": "built with -race (GORACE halt_on_error). A rapid-generated writer script (block / undo / Verify(remember) / re-read of its own serialization; 1 script in 12 contains one block adding 1100-3200 leaves, after which queries name hundreds of hashes; for a partial forest also "
             "Prune and Ingest) on a full or partial MapPollard with generated TotalRows, and a query set holding every reader method at least once (GetRoots, GetStump, Prove x2, "
             "Verify(remember=false), GetLeafPosition x2, GetLeafHashPositions, GetHash x2 (1-6 positions), GetMissingPositions, GetNumLeaves, GetTreeRows, Write (parsed), "
             "VerifyPartialProof(remember=false)) with arguments resolved in a drawn between-steps state. Expected answers: a sequential replica run of the same script answers "
